@@ -743,11 +743,13 @@ int yr_object_array_set_item(YR_OBJECT* object, YR_OBJECT* item, int index)
 
     while (capacity <= index) capacity *= 2;
 
-    array->items = (YR_ARRAY_ITEMS*) yr_realloc(
+    YR_ARRAY_ITEMS* items = (YR_ARRAY_ITEMS*) yr_realloc(
         array->items, sizeof(YR_ARRAY_ITEMS) + capacity * sizeof(YR_OBJECT*));
 
-    if (array->items == NULL)
+    if (items == NULL)
       return ERROR_INSUFFICIENT_MEMORY;
+
+    array->items = items;
 
     for (int i = array->items->capacity; i < capacity; i++)
       array->items->objects[i] = NULL;
@@ -828,12 +830,14 @@ int yr_object_dict_set_item(YR_OBJECT* object, YR_OBJECT* item, const char* key)
   else if (dict->items->free == 0)
   {
     count = dict->items->used * 2;
-    dict->items = (YR_DICTIONARY_ITEMS*) yr_realloc(
+    YR_DICTIONARY_ITEMS* items = (YR_DICTIONARY_ITEMS*) yr_realloc(
         dict->items,
         sizeof(YR_DICTIONARY_ITEMS) + count * sizeof(dict->items->objects[0]));
 
-    if (dict->items == NULL)
+    if (items == NULL)
       return ERROR_INSUFFICIENT_MEMORY;
+
+    dict->items = items;
 
     for (int i = dict->items->used; i < count; i++)
     {
